@@ -584,6 +584,62 @@ let run_c02 ic =
                     String.escaped (String.concat "" (List.map (fun (k, v) -> k ^ ": " ^ v ^ "\n") c.meta)))]));
   Printf.printf "SUMMARY cases=%d disagreements=%d impl_failures=%d impl_errors=%d\n" !n !n_dis !n_fail !n_err
 
+(* ---------- C14 ---------- *)
+let c14_clause_name = function
+  | VSplit -> "split" | VVerbatim -> "verbatim" | VExplicitWins -> "explicit-wins" | VNumbers -> "numbers"
+  | VPreBeforeRelease -> "prerelease-before-release" | VEpochDominates -> "epoch-dominates" | VNumericOrder -> "numeric-order" | VOracle -> "dpkg-oracle"
+
+let run_c14 ic =
+  let n = ref 0 and n_dis = ref 0 and n_fail = ref 0 and n_oracle = ref 0 and n_err = ref 0 in
+  let rpm_triple (s : string) =
+    match String.split_on_char '|' s with
+    | [e; v; r] -> (((if e = "" then z_of_int 0 else z_of_int (int_of_string e)), explode v), explode r)
+    | _ -> ((z_of_int 0, explode s), []) in
+  (try
+     while true do
+       let line = input_line ic in
+       let t = Array.of_list (String.split_on_char ' ' line) in
+       match t.(0) with
+       | "vsplit" ->
+         incr n;
+         let schema, v, pre, meta = unhex t.(2), unhex t.(3), unhex t.(4), unhex t.(5) in
+         let ov, opre, ometa = unhex t.(6), unhex t.(7), unhex t.(8) in
+         let ((mv, mp), mm) = split_version schema v pre meta in
+         let agree = (mv = ov && mp = opre && mm = ometa) in
+         let clauses = check_split schema v pre meta ov opre ometa in
+         if not agree then incr n_dis;
+         if clauses <> [] then incr n_fail;
+         if (not agree) || clauses <> [] then
+           report t.(1) agree (List.map c14_clause_name clauses) []
+             [Printf.sprintf "input schema=%S version=%S prerelease=%S metadata=%S" (implode schema) (implode v) (implode pre) (implode meta);
+              Printf.sprintf "impl  -> %S %S %S" (implode ov) (implode opre) (implode ometa);
+              Printf.sprintf "model -> %S %S %S" (implode mv) (implode mp) (implode mm)]
+       | "vorder" ->
+         if t.(3) = "err" then incr n_err else begin
+           incr n;
+           let fmt = unhexs t.(2) in
+           let a, b, c, d = unhexs t.(4), unhexs t.(5), unhexs t.(6), unhexs t.(7) in
+           let clauses = if fmt = "rpm" then check_order_rpm (rpm_triple a) (rpm_triple b) (rpm_triple c) (rpm_triple d)
+             else check_order_dpkg (explode a) (explode b) (explode c) (explode d) in
+           if clauses <> [] then begin
+             incr n_fail;
+             report (t.(1) ^ "/" ^ fmt) true (List.map c14_clause_name clauses) []
+               [Printf.sprintf "prerelease build %S, release %S, higher epoch %S, higher patch %S" a b c d]
+           end
+         end
+       | "vdpkg" ->
+         incr n_oracle;
+         let a, b = unhex t.(1), unhex t.(2) in
+         let m = match dpkg_cmp a b with Some Lt -> "lt" | Some Eq -> "eq" | Some Gt -> "gt" | None -> "fuel" in
+         if m <> t.(3) then begin
+           incr n_dis;
+           Printf.printf "DISAGREE dpkg-port %S vs %S: dpkg says %s, model says %s\n" (implode a) (implode b) t.(3) m
+         end
+       | _ -> ()
+     done
+   with End_of_file -> ());
+  Printf.printf "SUMMARY cases=%d disagreements=%d impl_failures=%d impl_errors=%d dpkg_oracle_pairs=%d\n" !n !n_dis !n_fail !n_err !n_oracle
+
 let () =
   match Sys.argv with
   | [| _; "C05"; file |] -> let ic = open_in file in run_c05 ic; close_in ic
@@ -591,6 +647,7 @@ let () =
   | [| _; "C02"; file |] -> let ic = open_in file in run_c02 ic; close_in ic
   | [| _; "C03"; file |] -> let ic = open_in file in run_c03 ic; close_in ic
   | [| _; "C04"; file |] -> let ic = open_in file in run_c04 ic; close_in ic
+  | [| _; "C14"; file |] -> let ic = open_in file in run_c14 ic; close_in ic
   | [| _; "C08"; file |] -> let ic = open_in file in run_c08 ic; close_in ic
   | [| _; "C09"; file |] -> let ic = open_in file in run_c09 ic; close_in ic
   | _ -> prerr_endline "usage: driver <property> <casefile>"; exit 2
